@@ -5,7 +5,7 @@
    (hash, match) for ARBITRARY hash values and an ARBITRARY split policy (Index.v).
    Part 2 (Run.v, DBSim.v, added below when built): runs over all operation sequences, and the
    refinement chain index -> flat index. *)
-From Pogreb Require Import Base Record Flat Index Spec DB DBInv DBLemmas DBProofsOps DBSim.
+From Pogreb Require Import Base Record Flat Index Spec DB DBInv DBMeta DBLemmas DBProofsOps DBSim DBRun.
 From Coq Require Import Permutation.
 
 Theorem C01_put : forall (P : params) (s : st) (k v : list N),
@@ -136,3 +136,18 @@ Print Assumptions C01_from_a_new_database.
 
 (* non-vacuity: the hypotheses are met by a state with an overflow chain and a hole (40 colliding keys, one deleted) *)
 Definition C01_nonvacuous := SimEx.ex_rel.
+
+(* ... and with Compact anywhere in the operation list: outputs equivalent to the plain map's (Items up
+   to permutation, CompactionResults ignored towards the map but EQUAL between the chain and the flat
+   run), final states related again with Inv and MetaOK *)
+Theorem C01_every_operation_sequence_with_compact : forall (P : params) (sp sf : st) (l : list op'),
+  params_ok P -> st_rel sp sf -> Inv P sf -> MetaOK sf -> Forall op_valid' l -> rooms' P sf l ->
+  Forall2 out_equiv' (run' (step_chain' P) sp l) (run' step_spec' (abs (s_disk sf)) l) /\
+  Forall2 out_equiv (run' (step_chain' P) sp l) (run' (step_flat' P) sf l) /\
+  (let sp' := final' (step_chain' P) sp l in
+   let sf' := final' (step_flat' P) sf l in
+   st_rel sp' sf' /\ Inv P sf' /\ MetaOK sf' /\
+   meq (abs (s_disk sf')) (final' step_spec' (abs (s_disk sf)) l)).
+Proof. exact C01_chain_refines_map_with_compact. Qed.
+Print Assumptions C01_every_operation_sequence_with_compact.
+Definition C01_nonvacuous_with_compact := RunEx.ex_run.
